@@ -32,6 +32,10 @@ theorem lincode_commit_encoder_refusal_aborts (pp : Params F D) (coeffs : List F
   | ok r =>
     exfalso
     unfold commit computeMatrices at hc
+    by_cases hf : fitsDims pp.dims coeffs = false
+    · rw [if_pos hf] at hc; cases hc
+    rw [if_neg hf] at hc
+    unfold computeMatricesCore at hc
     simp only at hc
     obtain ⟨row, hrow, e, he⟩ := h
     have : ∀ rows : List (List F), row ∈ rows → ∃ e', encodeRows pp.enc rows = .error e' := by
@@ -53,6 +57,25 @@ theorem lincode_commit_encoder_refusal_aborts (pp : Params F D) (coeffs : List F
     rw [he'] at hc
     cases hc
 
+/-- **A polynomial larger than the matrix of the parameters is refused** (fix D21): when the coefficient vector
+has more entries than `n_rows · n_cols` — possible only for a code of fixed shape, i.e. Brakedown keys made
+for fewer variables — `commit` aborts instead of committing to a truncation. -/
+theorem lincode_commit_oversize_refused (pp : Params F D) (coeffs : List F)
+    (h : (pp.dims (coeffsOrZero coeffs).length).1 * (pp.dims (coeffsOrZero coeffs).length).2
+      < (coeffsOrZero coeffs).length) :
+    commit pp coeffs = .error .abort := by
+  unfold commit
+  rw [computeMatrices_oversize pp coeffs (by
+    unfold fitsDims
+    exact decide_eq_false (by omega))]
+
+/-- … and a shape law with `n·m ≥ len` (Ligero's `compute_dimensions`: `m = ⌈len / n⌉`) never meets that
+refusal -/
+theorem lincode_fits_of_ceil_div (dims : Nat → Nat × Nat) (coeffs : List F)
+    (h : ∀ len, len ≤ (dims len).1 * (dims len).2) : fitsDims dims coeffs = true := by
+  unfold fitsDims
+  exact decide_eq_true (h _)
+
 /-- **Whatever `commit` answers**: the commitment announces the matrix shape of
 `compute_dimensions`, the codeword length of the encoded rows, and the tree has at least two leaves -/
 theorem lincode_commit_answer_shape (pp : Params F D) (coeffs : List F) (c : Comm D) (st : State F D)
@@ -71,7 +94,8 @@ theorem lincode_commit_answer_shape (pp : Params F D) (coeffs : List F) (c : Com
     · rename_i hd
       simp only [Except.ok.injEq, Prod.mk.injEq] at h
       obtain ⟨rfl, rfl⟩ := h
-      unfold computeMatrices at hm
+      replace hm := (computeMatrices_ok pp coeffs _ hm).2
+      unfold computeMatricesCore at hm
       simp only at hm
       split at hm
       · cases hm
@@ -236,7 +260,7 @@ theorem lincode_in_domain_answered (ro : TRO F D) (tp : TParams F D) (point : Po
 /-! non-vacuity on the toy instance (`2 × 2` matrices, repetition code, `ZMod 101`) -/
 example : Encodes (toyPP false) [1, 2, 3] toyE 4 ∧
     tensor (Point.uni (5 : K)) 2 2 = .ok (tensorUni 5 2 2) ∧ (tensorUni (5 : K) 2 2).2.length = 2 :=
-  ⟨toy_encodes false _, rfl, by decide⟩
+  ⟨toy_encodes false _ (by decide), rfl, by decide⟩
 example : (match commit (toyPP true) [1, 2, 3] with
     | .ok (c, st) =>
       decide (openOne (toyPP true) (.ml [3]) { c with nCols := 4 } st ⟨[7, 9], [1]⟩ = .error .abort ∧
